@@ -24,8 +24,7 @@ import (
 // at the gated cache tier; fault injection happens here because in the memory-only
 // hybrid configuration a failed tier write of a shared+persistent key is swallowed by
 // the facade (that is C14's finding, not the subject of C06).
-type faultStore struct {
-	*hybrid.Storage
+type faultCtl struct {
 	mu     sync.Mutex
 	armed  bool
 	failAt int // index among writes while armed; -1 none
@@ -34,7 +33,13 @@ type faultStore struct {
 	Failed string   // the write that failed ("" none)
 }
 
-func (f *faultStore) w(op, key string) error {
+// faultStore is one node's facade; all nodes share one faultCtl (write indices count across nodes).
+type faultStore struct {
+	*hybrid.Storage
+	*faultCtl
+}
+
+func (f *faultCtl) w(op, key string) error {
 	f.mu.Lock()
 	defer f.mu.Unlock()
 	if !f.armed {
@@ -50,8 +55,12 @@ func (f *faultStore) w(op, key string) error {
 	return nil
 }
 
-func (f *faultStore) arm(failAt int) { f.mu.Lock(); f.armed, f.failAt, f.seen = true, failAt, 0; f.mu.Unlock() }
-func (f *faultStore) disarm()        { f.mu.Lock(); f.armed = false; f.mu.Unlock() }
+func (f *faultCtl) arm(failAt int) {
+	f.mu.Lock()
+	f.armed, f.failAt, f.seen = true, failAt, 0
+	f.mu.Unlock()
+}
+func (f *faultCtl) disarm() { f.mu.Lock(); f.armed = false; f.mu.Unlock() }
 
 func (f *faultStore) Set(k string, v any, ttl time.Duration) error {
 	if err := f.w("Set", k); err != nil {
@@ -133,40 +142,67 @@ type world struct {
 	ctx    context.Context
 	cancel context.CancelFunc
 	g      *vkit.Gate
-	cache  *vkit.GateCache
-	store  *faultStore
+	cache  *vkit.GateCache // the tier that holds the cross-node data (oracle reads it ungated)
+	locals []*vkit.GateCache
+	store  *faultCtl
+	hs     []*hybrid.Storage
 	nodes  []*node
 }
 
 // newWorld builds nNodes service stacks over one store. gated=false leaves the gate nil
 // (sequential histories).
 func newWorld(nNodes int, cfg *services.ConnectionCodeServiceConfig, gated bool) *world {
-	return newWorldWith(nNodes, cfg, gated, nil)
+	return newWorldWith(nNodes, cfg, gated, nil, false)
 }
 
 // sel (optional) chooses which cache-tier operations are scheduling points.
-func newWorldWith(nNodes int, cfg *services.ConnectionCodeServiceConfig, gated bool, sel func(string) bool) *world {
+//
+// cluster=false: every service stack uses ONE hybrid store (one cache tier).
+// cluster=true: the multi-node deployment: each node has its own hybrid.Storage with its own
+// node-local cache and all nodes share one shared cache tier (the Redis role); which keys are
+// cross-node is decided by hybrid's key classes, exactly as on a real cluster.
+func newWorldWith(nNodes int, cfg *services.ConnectionCodeServiceConfig, gated bool, sel func(string) bool, cluster bool) *world {
 	ctx, cancel := context.WithCancel(context.Background())
-	w := &world{ctx: ctx, cancel: cancel}
+	w := &world{ctx: ctx, cancel: cancel, store: &faultCtl{failAt: -1}}
 	if gated {
 		w.g = vkit.NewGate()
 		// no lock of the code under test is held across a storage operation in these programs, so a
 		// "stall" can only be a runnable task that the loaded machine has not scheduled yet: wait long.
 		w.g.Stall = 5 * time.Second
 	}
-	w.cache = vkit.NewGateCache(w.g, "cache")
-	var tier stypes.CacheStorage = w.cache
-	if sel != nil {
-		tier = &selCache{GateCache: w.cache, sel: sel}
+	wrap := func(c *vkit.GateCache) stypes.CacheStorage {
+		if sel != nil {
+			return &selCache{GateCache: c, sel: sel}
+		}
+		return c
 	}
-	h := hybrid.NewWithSharedCache(ctx, tier, nil, nil, hybrid.DefaultConfig())
-	w.store = &faultStore{Storage: h, failAt: -1}
+	if cluster {
+		w.cache = vkit.NewGateCache(w.g, "shared")
+	} else {
+		w.cache = vkit.NewGateCache(w.g, "cache")
+	}
+	var single *hybrid.Storage
 	for i := 0; i < nNodes; i++ {
-		n := &node{repo: repos.NewRepository(w.store)}
+		var h *hybrid.Storage
+		switch {
+		case cluster:
+			local := vkit.NewGateCache(w.g, fmt.Sprintf("local%d", i+1))
+			w.locals = append(w.locals, local)
+			h = hybrid.NewWithSharedCache(ctx, wrap(local), wrap(w.cache), nil, hybrid.DefaultConfig())
+			w.hs = append(w.hs, h)
+		case single == nil:
+			single = hybrid.NewWithSharedCache(ctx, wrap(w.cache), nil, nil, hybrid.DefaultConfig())
+			w.hs = append(w.hs, single)
+			h = single
+		default:
+			h = single
+		}
+		st := &faultStore{Storage: h, faultCtl: w.store}
+		n := &node{repo: repos.NewRepository(st)}
 		n.codeRepo = repos.NewConnectionCodeRepository(n.repo)
 		n.pmRepo = repos.NewPortMappingRepo(n.repo)
-		idm := idgen.NewIDManager(w.store, ctx)
-		sp, _ := services.NewSimpleStatsProvider(w.store, ctx)
+		idm := idgen.NewIDManager(st, ctx)
+		sp, _ := services.NewSimpleStatsProvider(st, ctx)
 		n.pms = services.NewPortMappingService(n.pmRepo, idm, sp.GetCounter(), ctx)
 		n.cc = services.NewConnectionCodeService(n.codeRepo, n.pms, repos.NewPortMappingRepo(n.repo), cfg, ctx)
 		w.nodes = append(w.nodes, n)
@@ -179,7 +215,9 @@ func (w *world) close() {
 		w.g.Deactivate()
 	}
 	w.cancel()
-	w.store.Storage.Close()
+	for _, h := range w.hs {
+		h.Close()
+	}
 }
 
 // ---- ungated observation of the store (oracle side) -------------------------------
